@@ -134,7 +134,7 @@ class Decompiler:
                 pass
             elif len(current_section) > 0:
                 end = i
-                if issubclass(qc.gates[i - 1][0].__class__, gates.NopGate):
+                while issubclass(qc.gates[end - 1][0].__class__, gates.NopGate):
                     end -= 1
 
                 exps = self.__exps_of_section(qc, current_section)
